@@ -43,6 +43,10 @@ struct Snap {
     bystander: Target,
     bystander_v: f32,
     extra: Option<(AnimationState, Duration, Option<Target>)>,
+    /// bevy's change-detection ticks of the animator and of the target component: they move
+    /// whenever something obtains mutable access, whether or not a value changes
+    animator_tick: Option<bevy::ecs::component::Tick>,
+    target_tick: Option<bevy::ecs::component::Tick>,
 }
 
 fn snap(w: &SimWorld) -> Snap {
@@ -71,6 +75,8 @@ fn snap_of(w: &SimWorld, entity: Entity) -> Snap {
         other,
         bystander: b.get::<Target>().unwrap().clone(),
         bystander_v: b.get::<Bystander>().unwrap().v,
+        animator_tick: e.get_change_ticks::<Animator<Target>>().map(|t| t.last_changed_tick()),
+        target_tick: e.get_change_ticks::<Target>().map(|t| t.last_changed_tick()),
         extra: w.extra.map(|x| {
             let e = w.app.world.entity(x);
             let an = e.get::<Animator<Target>>().unwrap();
@@ -357,6 +363,8 @@ fn execute(scn: &BScn, property: &str) -> RunOutcome {
     // never played; excluded from the Ended clauses until the next reset / re-target
     let mut stale_ended = false;
     let mut chain_present = true;
+    // an Ended event naming the main entity was sent in the previous frame
+    let mut ended_event_in_previous_frame = false;
     // the selector's `timelines` map as edited at run time (key -> index into cfg.tls)
     let mut keys_now: Vec<Option<usize>> = cfg.keys.clone();
     // the entry of the key in effect was edited after that key was acted on: the animator keeps
@@ -934,6 +942,13 @@ fn execute(scn: &BScn, property: &str) -> RunOutcome {
                 if keyed_differs(spec, &before.comp, &after.comp) {
                     fail!("C18", "disabled-animator-changed", "frame {fi}: disabled animator changed the component {} -> {}", tbrief(&before.comp), tbrief(&after.comp));
                 }
+                // ... not even as far as bevy's change detection is concerned: nobody may take
+                // mutable access to the disabled animator or to its target in the frame (a key
+                // change acted on by the selector does hand the animator a new timeline, whether
+                // it is enabled or not: that is the selector writing, not the animator)
+                if !retargeted && (before.animator_tick != after.animator_tick || before.target_tick != after.target_tick) {
+                    fail!("C18", "disabled-animator-marked-changed", "frame {fi}: the frame marked the disabled animator (change tick {:?} -> {:?}) or its target component ({:?} -> {:?}) as changed", before.animator_tick, after.animator_tick, before.target_tick, after.target_tick);
+                }
                 out.count("probe.disabled_frame");
             } else if spec.is_none() {
                 if after.state != AnimationState::None || after.pos != pos_base {
@@ -1169,10 +1184,20 @@ fn execute(scn: &BScn, property: &str) -> RunOutcome {
             //    began, the governed animator was Ended having played exactly the key that was
             //    active (acted-on key == selector key), and the chain maps that key to the new one
             if key_after != key_before {
+                // ... and only an Ended event can make the chain act: one announced for this
+                // entity in the previous frame, or in this frame by the other animator on the
+                // entity (whose system may run before the chain system). An end that was announced
+                // long ago - say while the chain component was detached - is no cause any more.
+                let other_ended_now = matches!(
+                    (before.other, after.other),
+                    (Some((sb, _, _)), Some((sa, _, _))) if sb != AnimationState::Ended && sa == AnimationState::Ended
+                );
+                let fresh_event = ended_event_in_previous_frame || other_ended_now;
                 let justified = chain_present
                     && chain_lookup(key_before) == Some(key_after)
                     && before.acted == Some(key_before)
-                    && before.state == AnimationState::Ended;
+                    && before.state == AnimationState::Ended
+                    && fresh_event;
                 if justified {
                     out.count("probe.chain_fired");
                     if let Some(p) = &pending {
@@ -1182,7 +1207,13 @@ fn execute(scn: &BScn, property: &str) -> RunOutcome {
                     }
                     pending = None;
                 } else {
-                    let why = if before.acted != Some(key_before) {
+                    let why = if chain_present
+                        && chain_lookup(key_before) == Some(key_after)
+                        && before.acted == Some(key_before)
+                        && before.state == AnimationState::Ended
+                    {
+                        "no animator on the entity ended in the previous frame or in this one (the end the chain reacts to was announced long ago)"
+                    } else if before.acted != Some(key_before) {
                         "that key had been assigned since the last animation ended and never played (the animator was still set up for another key)"
                     } else if before.state != AnimationState::Ended {
                         "the governed Animator<Target> had not ended (another animator on the entity may have)"
@@ -1285,6 +1316,7 @@ fn execute(scn: &BScn, property: &str) -> RunOutcome {
             out.violation = Some(v);
             break;
         }
+        ended_event_in_previous_frame = events.iter().any(|(e, st)| *e == w.entity && *st == AnimationState::Ended);
     }
     out.obs_hash = h.0;
     out
